@@ -27,6 +27,11 @@ static ABTI_ythread T;
 static int cb_calls; static void *cb_arg_seen; static ABT_thread cb_thread_seen;
 static void mig_cb(ABT_thread t, void *a) { cb_calls++; cb_arg_seen = a; cb_thread_seen = t; }
 static int req_before_pool;
+/* user-defined target pool (MODE 2): unit creation and the unit map may fail (their own behaviour is C14's subject) */
+static int units_made, units_freed, map_fail; static ABTI_ythread UNITOBJ;
+static ABT_unit up_create_unit(ABT_pool p, ABT_thread t) { if (nondet_bool()) return ABT_UNIT_NULL; units_made++; return (ABT_unit)&UNITOBJ; }
+static void up_free_unit(ABT_pool p, ABT_unit u) { units_freed++; }
+int ABTI_unit_map_thread(ABTI_global *g, ABT_unit u, ABTI_thread *t) { if (nondet_bool()) { map_fail = 1; return ABT_ERR_MEM; } return ABT_SUCCESS; }
 void vr_sp(void)
 {
 #if MODE == 0
@@ -101,13 +106,26 @@ int main(void)
     VR_ASSERT(G.xstream_list_lock.val.val == 0, "stream list lock released");
 #else
     int k = nondet_int(); VR_ASSUME(k >= 1 && k <= 3);
+    int user_target = nondet_bool();
+    if (user_target) { P3.is_builtin = ABT_FALSE; P3.required_def.p_create_unit = up_create_unit; P3.required_def.p_free_unit = up_free_unit; k = 3; }
+    ABT_unit unit0 = T.thread.unit;
     MIG.p_migration_pool.val = pool_of(k); T.thread.request.val = ABTI_THREAD_REQ_MIGRATE;
     int r = ABTI_thread_handle_request_migrate(&G, NULL, &T.thread);
-    VR_ASSERT(r == ABT_SUCCESS, "handling succeeds");
-    VR_ASSERT(T.thread.p_pool == pool_of(k), "the unit is associated with the requested pool");
-    VR_ASSERT((T.thread.request.val & ABTI_THREAD_REQ_MIGRATE) == 0, "request bit cleared");
-    VR_ASSERT(cb_calls == (MIG.f_migration_cb ? 1 : 0), "migration callback invoked exactly once per performed migration");
-    if (cb_calls) { VR_ASSERT(cb_arg_seen == (void *)&cb_calls && cb_thread_seen == (ABT_thread)&T, "callback gets the unit and its argument"); VR_WITNESS("callback ran"); }
+    if (r == ABT_SUCCESS) {
+        VR_ASSERT(T.thread.p_pool == pool_of(k), "the unit is associated with the requested pool");
+        VR_ASSERT((T.thread.request.val & ABTI_THREAD_REQ_MIGRATE) == 0, "request bit cleared");
+        VR_ASSERT(cb_calls == (MIG.f_migration_cb ? 1 : 0), "migration callback invoked exactly once per performed migration");
+        if (cb_calls) { VR_ASSERT(cb_arg_seen == (void *)&cb_calls && cb_thread_seen == (ABT_thread)&T, "callback gets the unit and its argument"); VR_WITNESS("callback ran"); }
+        if (user_target) { VR_ASSERT(T.thread.unit == (ABT_unit)&UNITOBJ && units_made == 1 && units_freed == 0, "the unit handle now is the one created by the user-defined target pool"); VR_WITNESS("migrated into a user-defined pool"); }
+        else VR_ASSERT(T.thread.unit == unit0, "built-in pools share the unit handle");
+    } else {
+        VR_ASSERT(user_target, "handling can fail only when a user-defined target pool fails to create or register a unit");
+        VR_ASSERT(T.thread.p_pool == &P0 && T.thread.unit == unit0, "a migration that was not performed leaves the unit associated with its old pool");
+        VR_ASSERT(cb_calls == 0, "the migration callback is not invoked for a migration that was not performed");
+        VR_ASSERT(units_made == units_freed, "a unit created for the failed migration is given back to the pool");
+        if (map_fail) VR_WITNESS("unit map registration failed after the unit had been created");
+        else VR_WITNESS("the user-defined pool refused to create a unit");
+    }
 #endif
     return 0;
 }
